@@ -369,9 +369,26 @@ def _parse_clause(src):
     return _clause_cache[src]
 
 
+def havoc_sym_field(ex, state, shape, field):
+    """havoc a field of *every* record of a shape (modifies clause 'Shape.field' / 'Shape.*')"""
+    sh = ex.reg.shapes[shape]
+    names = list(sh.fields) if field == "*" else [field]
+    for f in names:
+        typ = sh.fields.get(f)
+        if typ is None or typ in ("any", "func") or typ.startswith("cb:"):
+            continue
+        parts = (((f, typ[4:]), (f + "?none", "bool")) if typ.startswith("opt:") else ((f, typ),))
+        for key_attr, t in parts:
+            arr = ex.reg._sym_arr(state, shape, key_attr, t)
+            state.sheap[(shape, key_attr)] = z3.Const(fresh_name("hv_H_%s_%s" % (shape, key_attr)), arr.sort())
+
+
 def havoc_modifies(ex, state, contract, env):
     for path in contract.modifies:
         parts = path.split(".")
+        if parts[0] in ex.reg.shapes and parts[0] not in env and len(parts) == 2:
+            havoc_sym_field(ex, state, parts[0], parts[1])
+            continue
         if parts[0] == "ghost":
             base = state.ghost
         else:
@@ -551,6 +568,21 @@ def instantiate(ex, state, cls, args, kwargs):
             return ex.reg.externals[name](ex, state, args, kwargs, None)
         return unknown_call(ex, state, "class:" + name, args, kwargs, None)
     ci = cls.info
+    rshape = ex.reg.record_classes.get(ci.qual)
+    if rshape is not None:
+        # a record class: the new object is a fresh address of the symbolic record heap (not yet allocated)
+        a = z3.Int(fresh_name("new_" + name))
+        alloc = state.sheap.get(("$alloc", ""))
+        if alloc is None:
+            alloc = z3.Array("H0_alloc", z3.IntSort(), z3.BoolSort())
+        state.assume(z3.Not(z3.Select(alloc, a)))
+        state.sheap[("$alloc", "")] = z3.Store(alloc, a, z3.BoolVal(True))
+        ref = VSym(rshape, a)
+        c0, m0 = ci.find_method("__init__")
+        if m0 is not None:
+            fv = VFunc("repo", "__init__", finfo=loader.FuncInfo(c0.module, c0.name + ".__init__", m0, c0), self_val=ref)
+            inline_call(ex, state, fv, args, kwargs)
+        return ref
     is_exc = bool(ex.class_bases(cls) & {"Exception", "BaseException"})
     c0, m0 = ci.find_method("__init__")
     ictr = ex.reg.contracts.get("%s:%s.__init__" % (c0.module, c0.name)) if m0 is not None else None
